@@ -347,6 +347,21 @@ if want("ori"):
                 fail("Orientation.angle_with_outer:lazy:values",
                      f"angle_with_outer(lazy=True) matches neither the eager result nor the reference of the lazy "
                      f"formula: self {ss} other {so} groups {g1},{g2} flags {flags}", rep)
+        # ---- the degrees keyword on the lazy path (converted once, like the eager path)
+        st("oang/degrees")
+        try:
+            aed = X.angle_with_outer(Y, degrees=True)
+            ald = X.angle_with_outer(Y, degrees=True, **lazy_kw(k))
+            if not (aed.shape == ald.shape and close(ald, aed, 1e-4)) or not close(aed, np.rad2deg(ae), 1e-6):
+                fail("Orientation.angle_with_outer:lazy:degrees", f"angle_with_outer(degrees=True) differs between lazy and eager (or is not "
+                     f"the radian result converted once): max lazy {float(np.max(ald)) if ald.size else 0:.4f}, max eager "
+                     f"{float(np.max(aed)) if aed.size else 0:.4f}", rep)
+            ged = X.get_distance_matrix(degrees=True)
+            gld = X.get_distance_matrix(degrees=True, **lazy_kw(k))
+            if not (ged.shape == gld.shape and close(gld, ged, 1e-4)):
+                fail("Orientation.get_distance_matrix:lazy:degrees", "get_distance_matrix(degrees=True) differs between lazy and eager", rep)
+        except Exception as e:  # noqa
+            fail("Orientation.angle_with_outer:lazy:degrees:raises", f"{type(e).__name__}: {e}", rep)
         # ---- get_distance_matrix lazy vs eager (self with self)
         ge = X.get_distance_matrix()
         gl = X.get_distance_matrix(**lazy_kw(k))
@@ -642,5 +657,558 @@ if want("strategy"):
                      {"cls": cls.__name__, "op": name, "sa": sa, "sb": sb, "A": rot_json(a) if cls is not Quaternion
                       else a.data.tolist(), "backend": backend})
     set_backend(True)
+
+
+# ======================================================================================================
+# Audit strata (coverage holes of the strata above).  They come LAST so that the random stream of the
+# sections above -- and with it the cases of the Coq correspondence -- is unchanged.  Each is guarded by the
+# section that `replay` of tools/props/C18.py selects for its signature prefix.
+# ======================================================================================================
+import contextlib
+import io
+
+
+@contextlib.contextmanager
+def quiet():
+    """dask's ProgressBar writes to stdout"""
+    with contextlib.redirect_stdout(io.StringIO()):
+        yield
+
+
+def qrot_np(q, v):
+    """numpy only: rotate v by the unit quaternion q / |q| (q v q* / |q|^2)"""
+    q = np.asarray(q, float)
+    w = qmul_np(qmul_np(q, np.array([0.0, v[0], v[1], v[2]])), q * np.array([1, -1, -1, -1]))
+    return w[1:] / float(np.dot(q, q))
+
+
+def outcome(f):
+    """(result, None) or (None, 'raises <Type>')"""
+    try:
+        with quiet():
+            return f(), None
+    except Exception as e:  # noqa
+        return None, f"raises {type(e).__name__}"
+
+
+def sym_names(o):
+    s = getattr(o, "symmetry", None)
+    if s is None:
+        return None
+    return [x.name for x in s] if isinstance(s, (tuple, list)) else s.name
+
+
+def same_object(e, l, tol=1e-9):
+    """None if the two results are the same kind of object with the same values, else what differs"""
+    if type(e) is not type(l):
+        return f"class {type(l).__name__} instead of {type(e).__name__}"
+    if e.shape != l.shape:
+        return f"shape {l.shape} instead of {e.shape}"
+    if not close(l.data, e.data, tol):
+        return "values differ"
+    if isinstance(e, Rotation) and not np.array_equal(e.improper, l.improper):
+        return "improper flags differ"
+    if sym_names(e) != sym_names(l):
+        return f"symmetry {sym_names(l)} instead of {sym_names(e)}"
+    if hasattr(e, "coordinate_format") and (getattr(l, "coordinate_format", None) != e.coordinate_format
+                                            or l.phase.point_group.name != e.phase.point_group.name):
+        return "Miller phase / coordinate format differ"
+    return None
+
+
+CLS_LEFT = ["Quaternion", "Rotation", "Orientation", "Misorientation", "Symmetry"]
+CLS_RIGHT = CLS_LEFT + ["Vector3d", "Miller"]
+
+
+def mk_obj(c, shape):
+    if c == "Quaternion":
+        return Quaternion(quat_data(shape, "nonunit"))
+    if c == "Rotation":
+        return mk_rot(shape)
+    if c == "Orientation":
+        return mk_rot(shape, Orientation, "mixed", R.choice([osym.D2, osym.C2h, osym.C3]))
+    if c == "Misorientation":
+        m = mk_rot(shape, Misorientation, "mixed")
+        m.symmetry = R.choice([(osym.C2, osym.D3), (osym.Ci, osym.C1)])
+        return m
+    if c == "Symmetry":
+        return R.choice([osym.C2v, osym.S4, osym.C3, osym.C2h])      # own shape, proper and improper elements
+    if c == "Vector3d":
+        return Vector3d(vec_data(shape))
+    if c == "Miller":
+        from orix.crystal_map import Phase
+        from orix.vector import Miller
+        from diffpy.structure import Lattice, Structure
+        m = Miller(xyz=np.array(vec_data(shape)),
+                   phase=Phase(point_group="6/mmm", structure=Structure(lattice=Lattice(3.2, 3.2, 5.1, 90, 90, 120))))
+        m.coordinate_format = R.choice(["hkl", "uvw", "hkil", "UVTW"])
+        return m
+    raise ValueError(c)
+
+
+def obj_json(o):
+    d = {"cls": type(o).__name__, "shape": list(o.shape), "data": o.data.tolist()}
+    if isinstance(o, Rotation):
+        d["imp"] = o.improper.astype(int).tolist()
+    if sym_names(o) is not None:
+        d["symmetry"] = sym_names(o)
+    return d
+
+
+PAIRS_MIX = [((2,), (3,)), ((2, 1), (3,)), ((1,), (2, 2)), ((1, 2, 2), (2,)), ((3,), (1, 2, 1)), ((2, 2), (1, 3))]
+
+if want("outer"):
+    # ---- (1) operands of DIFFERENT classes: every class with an outer() (bare quaternion, rotation, orientation,
+    # misorientation, symmetry) with every operand class (those and Vector3d, Miller); the sections above only pair
+    # Quaternion x Quaternion / Vector3d and Rotation x Rotation / Vector3d.  Lazy and eager results must be the same
+    # kind of object (class, shape, values, improper flags, symmetry) and equal the pairwise numpy reference.
+    for t in range(max(N // 50, 2)):
+        for ci, (ca, cb) in enumerate(itertools.product(CLS_LEFT, CLS_RIGHT)):
+            sa, sb = PAIRS_MIX[(t * 5 + ci) % len(PAIRS_MIX)]
+            backend = (ci + t) % 2 == 0
+            set_backend(backend)
+            A, B = mk_obj(ca, sa), mk_obj(cb, sb)
+            k = pick_k(A.shape, B.shape)
+            st(f"classmix/{ca}x{cb}")
+            rep = {"A": obj_json(A), "B": obj_json(B), "k": k, "backend": backend}
+            (e, ee), (l, le) = outcome(lambda: A.outer(B)), outcome(lambda: A.outer(B, **lazy_kw(k)))
+            sig = f"outer:classmix:{ca}x{cb}"
+            if ee or le:
+                if ee != le:
+                    fail(sig + ":raises", f"{ca}.outer({cb}): lazy=False {ee or 'returns'}, lazy=True {le or 'returns'} "
+                         f"(shapes {A.shape} x {B.shape}, chunk {k})", rep)
+                continue
+            d = same_object(e, l)
+            if d:
+                fail(sig + ":lazy!=eager", f"{ca}.outer({cb}, lazy=True) differs from lazy=False: {d} "
+                     f"(shapes {A.shape} x {B.shape}, chunk {k}, numpy-quaternion {backend})", rep)
+                continue
+            ok = e.shape == A.shape + B.shape
+            if ok:
+                isrot = isinstance(e, Rotation)
+                for i in np.ndindex(*A.shape):
+                    for j in np.ndindex(*B.shape):
+                        if isinstance(B, Quaternion):
+                            ref = qmul_np(A.data[i], B.data[j])
+                            if isrot:
+                                ref = ref / np.linalg.norm(ref)
+                        else:
+                            ref = qrot_np(A.data[i], B.data[j])
+                            if isinstance(A, Rotation) and A.improper[i]:
+                                ref = -ref
+                        if not (close(e.data[i + j], ref, 1e-9) and close(l.data[i + j], ref, 1e-9)):
+                            ok = False
+                        if isrot and isinstance(A, Rotation) and bool(e.improper[i + j]) != (
+                                bool(A.improper[i]) != bool(B.improper[j])):
+                            ok = False
+            if not ok:
+                fail(sig + ":reference", f"{ca}.outer({cb}) (both modes) is not the pairwise product indexed "
+                     f"self.shape + other.shape (shapes {A.shape} x {B.shape}, numpy-quaternion {backend})", rep)
+        # Vector3d.dot_outer with a Miller operand (Miller.dot_outer itself has no lazy mode)
+        sa, sb = PAIRS_MIX[t % len(PAIRS_MIX)]
+        U, M_ = mk_obj("Vector3d", sa), mk_obj("Miller", sb)
+        k = pick_k(sa, sb)
+        st("classmix/Vector3d.dot_outer(Miller)")
+        for nm, a, b in (("Vector3d.dot_outer(Miller)", U, M_), ("Miller.dot_outer(Vector3d)", M_, U)):
+            e, l = Vector3d.dot_outer(a, b), Vector3d.dot_outer(a, b, **lazy_kw(k))
+            ref = np.einsum("...i,...i", a.data.reshape(a.shape + (1,) * b.ndim + (3,)), b.data)
+            if not (e.shape == l.shape == ref.shape and close(l, e, 1e-9) and close(l, ref, 1e-9)):
+                fail(f"outer:classmix:{nm}:lazy!=eager", f"{nm}: lazy / eager / numpy reference differ "
+                     f"(shapes {a.shape} x {b.shape}, chunk {k})", {"U": obj_json(a), "V": obj_json(b), "k": k})
+    set_backend(True)
+
+    # ---- (2) the DEFAULT keyword path (chunk_size left at its default, progressbar=True: the `with ProgressBar()`
+    # branch is separate code in every lazy method and is never entered above), positional arguments, degrees=True
+    for t in range(max(N // 50, 2)):
+        sa, sb = R.choice(SHAPES), R.choice(SHAPES)
+        so1, so2 = R.choice(SMALL), R.choice(SMALL)
+        backend = t % 2 == 0
+        set_backend(backend)
+        A, B = Quaternion(quat_data(sa, "nonunit")), Quaternion(quat_data(sb, "nonunit"))
+        U, V = Vector3d(vec_data(sa)), Vector3d(vec_data(sb))
+        RA, RB = mk_rot(sa), mk_rot(sb)
+        g1, g2 = [("D2", "C2h"), ("C3v", "C3v"), ("S4", "D3"), ("C1", "Ci")][t % 4]
+        X = mk_rot(so1, Orientation, "mixed", getattr(osym, g1))
+        Y = mk_rot(so2, Orientation, ["none", "mixed"][t % 2], getattr(osym, g2))
+        Mi = mk_rot(R.choice([(2,), (1, 2), (2, 1, 1)]), Misorientation, "mixed")
+        Mi.symmetry = (getattr(osym, g1), getattr(osym, g2))
+        k = R.choice([2, 3, 7, 20])        # chunk size 1 is exercised above; the keyword path is the point here
+        rep = {"A": A.data.tolist(), "B": B.data.tolist(), "U": U.data.tolist(), "V": V.data.tolist(),
+               "RA": rot_json(RA), "RB": rot_json(RB), "X": rot_json(X), "Y": rot_json(Y), "groups": [g1, g2],
+               "Mi": rot_json(Mi), "k": k, "backend": backend}
+        calls = [
+            ("Quaternion.outer(Quaternion)", lambda **kw: A.outer(B, **kw), lambda *a: A.outer(B, *a)),
+            ("Quaternion.outer(Vector3d)", lambda **kw: A.outer(V, **kw), lambda *a: A.outer(V, *a)),
+            ("Rotation.outer(Rotation)", lambda **kw: RA.outer(RB, **kw), lambda *a: RA.outer(RB, *a)),
+            ("Rotation.outer(Vector3d)", lambda **kw: RA.outer(V, **kw), lambda *a: RA.outer(V, *a)),
+            ("Vector3d.dot_outer", lambda **kw: U.dot_outer(V, **kw), lambda *a: U.dot_outer(V, *a)),
+            ("Orientation.angle_with_outer", lambda **kw: X.angle_with_outer(Y, **kw), lambda *a: X.angle_with_outer(Y, *a)),
+            ("Orientation.get_distance_matrix", lambda **kw: X.get_distance_matrix(**kw), lambda *a: X.get_distance_matrix(*a)),
+        ]
+        for nm, fk, fp in calls:
+            st(f"defaults/{nm}")
+            e, ee = outcome(lambda: fk())
+            variants = [("lazy=True, other keywords at their defaults", lambda: fk(lazy=True), "default"),
+                        ("lazy=True, progressbar=True", lambda: fk(lazy=True, chunk_size=k, progressbar=True), "progressbar"),
+                        ("positional (lazy, chunk_size, progressbar)", lambda: fp(True, k, False), "positional")]
+            for vn, f, tag in variants:
+                l, le = outcome(f)
+                if ee or le:
+                    if ee != le:
+                        fail(f"defaults:{nm}:{tag}:raises", f"{nm}: eager {ee or 'returns'}, {vn} {le or 'returns'}", rep)
+                    continue
+                if isinstance(e, np.ndarray):
+                    d = None if (e.shape == l.shape and close(l, e, 1e-6)) else "shape or values differ"
+                else:
+                    d = same_object(e, l)
+                if d:
+                    fail(f"defaults:{nm}:{tag}", f"{nm} with {vn} differs from lazy=False: {d} (chunk {k})", rep)
+        # degrees=True in both modes, against the result in radians
+        for nm, f in (("Orientation.angle_with_outer", lambda **kw: X.angle_with_outer(Y, **kw)),
+                      ("Orientation.get_distance_matrix", lambda **kw: X.get_distance_matrix(**kw))):
+            st(f"defaults/{nm}/degrees")
+            rad = f()
+            with quiet():
+                ed, ld, ldd = f(degrees=True), f(degrees=True, **lazy_kw(k)), f(degrees=True, lazy=True)
+            for tag, got in (("eager", ed), ("lazy", ld), ("lazy-default", ldd)):
+                if not (got.shape == rad.shape and close(np.deg2rad(got), rad, 1e-6)):
+                    fail(f"defaults:{nm}:degrees:{tag}", f"{nm}(degrees=True), {tag}, is not the result in radians "
+                         f"converted to degrees (chunk {k})", rep)
+        # Misorientation.get_distance_matrix has a chunked mode only: default call, positional call, degrees
+        st("defaults/Misorientation.get_distance_matrix")
+        Dm = Mi.get_distance_matrix(chunk_size=k, progressbar=False)
+        with quiet():
+            alts = [("default", Mi.get_distance_matrix()), ("progressbar", Mi.get_distance_matrix(chunk_size=k, progressbar=True)),
+                    ("positional", Mi.get_distance_matrix(k, False)),
+                    ("degrees", np.deg2rad(Mi.get_distance_matrix(chunk_size=k, progressbar=False, degrees=True))),
+                    ("degrees-default", np.deg2rad(Mi.get_distance_matrix(degrees=True)))]
+        for tag, got in alts:
+            if not (got.shape == Dm.shape and close(got, Dm, 1e-7)):
+                fail(f"defaults:Misorientation.get_distance_matrix:{tag}", f"Misorientation.get_distance_matrix ({tag}) "
+                     f"differs from the call with chunk_size={k}, progressbar=False", rep)
+    set_backend(True)
+
+    # ---- (3) EMPTY operands (a zero-length axis on the left, on the right, on both, next to non-empty axes)
+    EMPTY_PAIRS = [((0,), (2,)), ((2,), (0,)), ((0,), (0,)), ((0, 2), (3,)), ((2, 0), (1, 2)), ((3,), (2, 0)), ((1, 0), (0,))]
+    for t, (sa, sb) in enumerate(EMPTY_PAIRS):
+        backend = t % 2 == 0
+        set_backend(backend)
+        A, B = Quaternion(quat_data(sa, "nonunit")), Quaternion(quat_data(sb, "unit"))
+        U, V = Vector3d(vec_data(sa)), Vector3d(vec_data(sb))
+        RA, RB = mk_rot(sa), mk_rot(sb)
+        X, Y = mk_rot(sa, Orientation, "mixed", osym.D2), mk_rot(sb, Orientation, "mixed", osym.C2h)
+        k = [1, 2, 20][t % 3]
+        for nm, f, shp in (("Quaternion.outer(Quaternion)", lambda **kw: A.outer(B, **kw), sa + sb),
+                           ("Quaternion.outer(Vector3d)", lambda **kw: A.outer(V, **kw), sa + sb),
+                           ("Rotation.outer(Rotation)", lambda **kw: RA.outer(RB, **kw), sa + sb),
+                           ("Rotation.outer(Vector3d)", lambda **kw: RA.outer(V, **kw), sa + sb),
+                           ("Vector3d.dot_outer", lambda **kw: U.dot_outer(V, **kw), sa + sb),
+                           ("Orientation.angle_with_outer", lambda **kw: X.angle_with_outer(Y, **kw), sa + sb),
+                           ("Orientation.get_distance_matrix", lambda **kw: X.get_distance_matrix(**kw), sa + sa)):
+            st(f"empty/{nm}")
+            (e, ee), (l, le) = outcome(lambda: f()), outcome(lambda: f(**lazy_kw(k)))
+            rep = {"op": nm, "self_shape": sa, "other_shape": sb, "k": k, "backend": backend}
+            if ee or le:
+                if ee != le:
+                    fail(f"empty:{nm}:raises", f"{nm} on shapes {sa} x {sb}: lazy=False {ee or 'returns'}, "
+                         f"lazy=True {le or 'returns'}", rep)
+            elif not (tuple(e.shape) == tuple(l.shape) == tuple(shp) and type(e) is type(l)):
+                fail(f"empty:{nm}:shape", f"{nm} on shapes {sa} x {sb}: eager {type(e).__name__}{e.shape}, lazy "
+                     f"{type(l).__name__}{l.shape}, expected shape {shp}", rep)
+    set_backend(True)
+
+    # ---- (7) operands with a HISTORY (views: transposed, reversed, strided, reshaped, flattened, a column): the data
+    # are not C-contiguous; all evaluation strategies must give what a fresh copy of the same elements gives
+    def fresh(o):
+        if isinstance(o, Vector3d):
+            return Vector3d(np.array(o.data, dtype=float, order="C", copy=True))
+        n = o.__class__(np.array(o.data, dtype=float, order="C", copy=True))
+        if isinstance(o, Rotation):
+            n.improper = o.improper.copy()
+            if isinstance(o, Orientation):
+                n.symmetry = o.symmetry
+        return n
+
+    HIST = [("id", (2, 3), lambda o: o), ("transpose", (2, 3), lambda o: o.transpose()),
+            ("reversed", (4,), lambda o: o[::-1]), ("strided", (5,), lambda o: o[::2]),
+            ("reshape", (2, 3), lambda o: o.reshape(3, 2)), ("column", (3, 2), lambda o: o[:, 1]),
+            ("transpose3", (2, 1, 3), lambda o: o.transpose(2, 0, 1)), ("flatten", (2, 2), lambda o: o.flatten()),
+            ("rows-reversed", (3, 2), lambda o: o[::-1, ::-1])]
+    nh = len(HIST)
+    for t in range(max(N // 6, 12)):
+        # every history meets "id" on the other side (both orders) and a different history
+        h1, h2 = [(t % nh, 0), (0, t % nh), (t % nh, (t * 2 + 1) % nh)][(t // nh) % 3]
+        (n1, s1, f1), (n2, s2, f2) = HIST[h1], HIST[h2]
+        backend = (t // 2) % 2 == 0
+        k = [2, 3, 20][t % 3]
+        objs = {"q": (f1(Quaternion(quat_data(s1, "nonunit"))), f2(Quaternion(quat_data(s2, "unit")))),
+                "r": (f1(mk_rot(s1)), f2(mk_rot(s2))),
+                "v": (f1(Vector3d(vec_data(s1))), f2(Vector3d(vec_data(s2)))),
+                "o": (f1(mk_rot(s1, Orientation, "mixed", osym.C2h)), f2(mk_rot(s2, Orientation, "mixed", osym.D3)))}
+        fr = {key: (fresh(a), fresh(b)) for key, (a, b) in objs.items()}
+        st(f"views/{n1}x{n2}")
+        ops = [("Quaternion.outer(Quaternion)", lambda o, **kw: o["q"][0].outer(o["q"][1], **kw)),
+               ("Quaternion.outer(Vector3d)", lambda o, **kw: o["q"][0].outer(o["v"][1], **kw)),
+               ("Rotation.outer(Rotation)", lambda o, **kw: o["r"][0].outer(o["r"][1], **kw)),
+               ("Rotation.outer(Vector3d)", lambda o, **kw: o["r"][0].outer(o["v"][1], **kw)),
+               ("Vector3d.dot_outer", lambda o, **kw: o["v"][0].dot_outer(o["v"][1], **kw)),
+               ("Orientation.angle_with_outer", lambda o, **kw: o["o"][0].angle_with_outer(o["o"][1], **kw))]
+        for nm, f in ops:
+            set_backend(True)
+            want_ = f(fr)
+            set_backend(backend)
+            for tag, got in (("eager", outcome(lambda: f(objs))), ("lazy", outcome(lambda: f(objs, **lazy_kw(k))))):
+                res, err = got
+                if err:
+                    d = err
+                elif isinstance(want_, np.ndarray):
+                    d = None if (res.shape == want_.shape and close(res, want_, 1e-6)) else "shape or values differ"
+                else:
+                    d = same_object(want_, res)
+                if d:
+                    fail(f"views:{nm}:{tag}", f"{nm} ({tag}, numpy-quaternion {backend}) on operands that are views "
+                         f"({n1} / {n2}) differs from the result on fresh copies of the same elements: {d}",
+                         {"op": nm, "history": [n1, n2], "base_shapes": [s1, s2], "k": k, "backend": backend,
+                          "operands": {key: [obj_json(a), obj_json(b)] for key, (a, b) in fr.items()}})
+    set_backend(True)
+
+if want("ori"):
+    # ---- (4) orientations with >= 3 axes and unequal numbers of axes in BOTH orders (SMALL has at most 2 axes): the
+    # transposition to self.shape + other.shape moves a block of other.ndim axes over a block of self.ndim axes
+    PAIRS3 = [((2, 1, 2), (3,)), ((3,), (1, 2, 2)), ((1, 2, 2), (2, 3)), ((2, 3), (2, 1, 1)), ((1, 1, 2), (1, 2, 1)),
+              ((2, 2, 1), (2,)), ((2,), (1, 1, 3)), ((1, 2, 1, 2), (3,))]
+    GP3 = [("D2", "D2"), ("C2h", "C2h"), ("D3", "T"), ("C3v", "Cs"), ("C1", "S4"), ("O", "D6"), ("Ci", "C2v")]
+    FL3 = [("none", "none"), ("mixed", "none"), ("none", "mixed"), ("mixed", "mixed"), ("all", "one")]
+    for t in range(max(N // 12, 8)):
+        ss, so = PAIRS3[t % len(PAIRS3)]
+        g1, g2 = GP3[t % len(GP3)]
+        fX, fY = FL3[t % len(FL3)]
+        G1, G2 = getattr(osym, g1), getattr(osym, g2)
+        X, Y = mk_rot(ss, Orientation, fX, G1), mk_rot(so, Orientation, fY, G2)
+        S = _get_unique_symmetry_elements(G2, G1)
+        k = pick_k(ss, so)
+        st(f"ori3/ndim={len(ss)}x{len(so)}/flags={fX}/{fY}")
+        rep = {"X": rot_json(X), "Y": rot_json(Y), "groups": [g1, g2], "k": k}
+        D = ref_dots(X, Y, S, "eager")
+        got = [("dot_outer", X.dot_outer(Y), D, 1e-9), ("_dot_outer_dask", X._dot_outer_dask(Y, chunk_size=k).compute(), D, 1e-9),
+               ("angle_with_outer:eager", X.angle_with_outer(Y), to_angle(D), 1e-6),
+               ("angle_with_outer:lazy", X.angle_with_outer(Y, **lazy_kw(k)), to_angle(D), 1e-6)]
+        DX = ref_dots(X, X, _get_unique_symmetry_elements(G1, G1), "eager")
+        got += [("get_distance_matrix:eager", X.get_distance_matrix(), to_angle(DX), 1e-6),
+                ("get_distance_matrix:lazy", X.get_distance_matrix(**lazy_kw(k)), to_angle(DX), 1e-6)]
+        for nm, arr_, ref, tol in got:
+            if arr_.shape != ref.shape:
+                fail(f"Orientation.{nm}:ndim3:axes-order", f"Orientation.{nm.replace(':', ', ')} for self {ss} other {so} "
+                     f"has shape {arr_.shape}, expected self.shape + other.shape = {ref.shape}", rep)
+            elif not close(np.cos(arr_) if "angle" in nm or "distance" in nm else arr_,
+                           np.cos(ref) if "angle" in nm or "distance" in nm else ref, tol):
+                fail(f"Orientation.{nm}:ndim3:values", f"Orientation.{nm.replace(':', ', ')} for self {ss} other {so}, groups "
+                     f"{g1},{g2}, flags {fX}/{fY}, chunk {k} differs from the pairwise numpy reference indexed "
+                     f"self.shape + other.shape", rep)
+
+if want("mis"):
+    # ---- (5) Misorientation.get_distance_matrix: >= 3 axes and size-1 axes (the reduction axes are computed from
+    # ndim), all flag patterns, whole array against the matrices of single pairs / single elements
+    SH5 = [(2, 1, 2), (1, 2, 1), (1, 1, 1), (3,), (2, 2), (1, 3)]
+    GP5 = [("D2", "C3"), ("C2h", "C2"), ("Cs", "Ci"), ("C3", "C3"), ("C1", "D2"), ("S4", "C2v")]
+    FL5 = ["none", "mixed", "all", "one"]
+    for t in range(max(N // 25, 4)):
+        s = SH5[t % len(SH5)]
+        g1, g2 = GP5[t % len(GP5)]
+        M = mk_rot(s, Misorientation, FL5[t % len(FL5)])
+        M.symmetry = (getattr(osym, g1), getattr(osym, g2))
+        k = [2, 3, 20, 5][t % 4]             # (the symmetry axes are chunked too: chunk size 1 costs minutes here)
+        D = M.get_distance_matrix(chunk_size=k, progressbar=False)
+        st(f"mis3/ndim={len(s)}")
+        rep = {"M": rot_json(M), "groups": [g1, g2], "k": k}
+        if D.shape != s + s:
+            fail("Misorientation.get_distance_matrix:ndim3:shape", f"get_distance_matrix of shape {s} has shape {D.shape}, "
+                 f"expected {s + s}", rep)
+            continue
+        idx = list(np.ndindex(*s))
+        pairs = [(i, j) for i in idx for j in idx if i <= j]
+        if len(pairs) > 6:
+            pairs = [pairs[(t + 3 * n) % len(pairs)] for n in range(6)]
+        ok = True
+        for i, j in pairs:
+            Pm = Misorientation(np.stack([M.data[i], M.data[j]]), symmetry=M.symmetry)
+            Pm.improper = np.array([M.improper[i], M.improper[j]])
+            d2 = Pm.get_distance_matrix(chunk_size=[2, 20, 3][(t + sum(i) + sum(j)) % 3], progressbar=False)
+            if not (d2.shape == (2, 2) and close(np.cos([d2[0, 1], d2[1, 0], d2[0, 0], d2[1, 1]]),
+                                                 np.cos([D[i + j], D[j + i], D[i + i], D[j + j]]), 1e-7)):
+                ok = False
+                rep = dict(rep, pair=[list(i), list(j)])
+        if not ok:
+            fail("Misorientation.get_distance_matrix:elementwise", f"get_distance_matrix of an array of shape {s} (groups "
+                 f"{g1},{g2}, chunk {k}) differs from the matrices of its pairs of elements", rep)
+
+if want("strategy"):
+    # ---- (6) BROADCAST products of operands of different (compatible) shapes: above, `*` and dot() only ever see two
+    # operands of the same shape, yet the two backends broadcast by different mechanisms
+    BPAIRS = [((2, 1), (1, 3)), ((3,), (2, 3)), ((2, 3), (3,)), ((1,), (2, 2)), ((2, 2), (1,)), ((2, 1, 2), (3, 1)),
+              ((1, 1), (3,)), ((2,), (2, 1))]
+    for t in range(max(N // 12, 8)):
+        sa, sb = BPAIRS[t % len(BPAIRS)]
+        bs = tuple(np.broadcast_shapes(sa, sb))
+        A, B, V = Quaternion(quat_data(sa, "nonunit")), Quaternion(quat_data(sb, "nonunit")), Vector3d(vec_data(sb))
+        RA, RB = mk_rot(sa, flags=["mixed", "none", "all"][t % 3]), mk_rot(sb, flags=["none", "mixed", "mixed"][t % 3])
+        Mb = mk_obj("Miller", sb)
+        qa, qb = np.broadcast_to(A.data, bs + (4,)), np.broadcast_to(B.data, bs + (4,))
+        ra, rb = np.broadcast_to(RA.data, bs + (4,)), np.broadcast_to(RB.data, bs + (4,))
+        ia, ib = np.broadcast_to(RA.improper, bs), np.broadcast_to(RB.improper, bs)
+        vb, mb = np.broadcast_to(V.data, bs + (3,)), np.broadcast_to(Mb.data, bs + (3,))
+        sgn = np.where(ia, -1.0, 1.0)[..., None]
+        refs = {
+            "Quaternion*Quaternion": np.array([qmul_np(qa[i], qb[i]) for i in np.ndindex(*bs)]).reshape(bs + (4,)),
+            "Quaternion*Vector3d": np.array([qrot_np(qa[i], vb[i]) for i in np.ndindex(*bs)]).reshape(bs + (3,)),
+            "Quaternion*Miller": np.array([qrot_np(qa[i], mb[i]) for i in np.ndindex(*bs)]).reshape(bs + (3,)),
+            "Quaternion.dot": np.sum(qa * qb, -1),
+            "Rotation*Rotation": np.concatenate([np.array([qmul_np(ra[i], rb[i]) for i in np.ndindex(*bs)]).reshape(bs + (4,)),
+                                                 np.logical_xor(ia, ib)[..., None].astype(float)], -1),
+            "Rotation*Vector3d": sgn * np.array([qrot_np(ra[i], vb[i]) for i in np.ndindex(*bs)]).reshape(bs + (3,)),
+            "Rotation*Quaternion": np.array([qmul_np(ra[i], qb[i]) for i in np.ndindex(*bs)]).reshape(bs + (4,)),
+        }
+        fs = {"Quaternion*Quaternion": lambda: A * B, "Quaternion*Vector3d": lambda: A * V, "Quaternion*Miller": lambda: A * Mb,
+              "Quaternion.dot": lambda: A.dot(B), "Rotation*Rotation": lambda: RA * RB, "Rotation*Vector3d": lambda: RA * V,
+              "Rotation*Quaternion": lambda: RA * B}
+        st(f"broadcast/{len(sa)}x{len(sb)}")
+        rep = {"sa": sa, "sb": sb, "A": A.data.tolist(), "B": B.data.tolist(), "V": V.data.tolist(), "RA": rot_json(RA),
+               "RB": rot_json(RB), "miller_xyz": Mb.data.tolist()}
+        for nm, f in fs.items():
+            out = {}
+            for backend in (True, False):
+                set_backend(backend)
+                r_, err = outcome(f)
+                out[backend] = err if err else arr(r_)
+                if nm == "Quaternion*Miller" and not err and not (hasattr(r_, "coordinate_format")
+                                                                  and r_.coordinate_format == Mb.coordinate_format
+                                                                  and r_.phase.point_group.name == Mb.phase.point_group.name):
+                    fail(f"backend:broadcast:{nm}:kind", f"{nm} does not keep the phase / coordinate format "
+                         f"(numpy-quaternion {backend})", rep)
+            set_backend(True)
+            a_, b_ = out[True], out[False]
+            if isinstance(a_, str) or isinstance(b_, str):
+                fail(f"backend:broadcast:{nm}:raises", f"{nm} on shapes {sa} and {sb}: numpy-quaternion {a_ if isinstance(a_, str) else 'returns'}, "
+                     f"built-in {b_ if isinstance(b_, str) else 'returns'}", rep)
+                continue
+            if not close(b_, a_, 1e-9):
+                fail(f"backend:broadcast:{nm}", f"{nm} on broadcast shapes {sa} and {sb} differs between numpy-quaternion "
+                     f"(shape {a_.shape}) and the built-in kernels (shape {b_.shape})", rep)
+            for backend, got in ((True, a_), (False, b_)):
+                if not close(got, refs[nm], 1e-9):
+                    fail(f"elementwise:broadcast:{nm}:{'npq' if backend else 'builtin'}", f"{nm} on broadcast shapes {sa} and "
+                         f"{sb} is not the element-by-element product of the broadcast operands "
+                         f"(got shape {got.shape}, expected {refs[nm].shape})", rep)
+    set_backend(True)
+
+    # ---- (8) INTEGER input (int64, int32, nested lists of ints) to the constructors from other representations, and
+    # their keyword paths (degrees, direction, Rodrigues-Frank angles); above they only get float32 and the defaults
+    def signed_perm():
+        """a proper rotation matrix with entries 0, +-1"""
+        p = list(range(3))
+        R.shuffle(p)
+        m = np.zeros((3, 3), dtype=np.int64)
+        for r_, c_ in enumerate(p):
+            m[r_, c_] = R.choice([-1, 1])
+        if round(np.linalg.det(m)) < 0:
+            m[0] = -m[0]
+        return m
+
+    def int_rows(n, dim, lo, hi):
+        out = []
+        while len(out) < n:
+            r_ = [R.randint(lo, hi) for _ in range(dim)]
+            if any(r_):
+                out.append(r_)
+        return np.array(out, dtype=np.int64)
+
+    KW_FROM = [
+        ("from_euler", {}, lambda n: int_rows(n, 3, -3, 6)), ("from_euler", {"degrees": True}, lambda n: int_rows(n, 3, -180, 360)),
+        ("from_euler", {"direction": "crystal2lab"}, lambda n: int_rows(n, 3, -3, 6)),
+        ("from_euler", {"direction": "MTEX", "degrees": True}, lambda n: int_rows(n, 3, -90, 270)),
+        ("from_matrix", {}, lambda n: np.array([signed_perm() for _ in range(n)])),
+        ("from_rodrigues", {}, lambda n: int_rows(n, 3, -3, 3)),
+        ("from_homochoric", {}, lambda n: np.array([R.choice([[1, 0, 0], [0, -1, 0], [0, 0, 1], [-1, 0, 0], [0, 0, 0]])
+                                                    for _ in range(n)], dtype=np.int64)),
+    ]
+    for t in range(max(N // 25, 4)):
+        shape = SMALL[t % len(SMALL)]
+        n = size(shape)
+        itype = ["int64", "int32", "list"][t % 3]
+
+        def as_int(d):
+            return d.astype(np.int64).tolist() if itype == "list" else d.astype(itype)
+        for cls in (Quaternion, Rotation, Orientation):
+            for name, kw, gen in KW_FROM:
+                d = gen(n).reshape(shape + ((3, 3) if name == "from_matrix" else (3,)))
+                tag = name + "".join(f"[{a}={b}]" for a, b in kw.items())
+                st(f"from-int/{tag}/{itype}")
+                rep = {"cls": cls.__name__, "constructor": name, "kwargs": kw, "input": d.tolist(), "dtype": itype}
+                (wf, ef), (wi, ei) = (outcome(lambda: getattr(cls, name)(d.astype(np.float64), **kw)),
+                                      outcome(lambda: getattr(cls, name)(as_int(d), **kw)))
+                if ef or ei:
+                    if ef != ei:
+                        fail(f"dtype:{cls.__name__}.{tag}:{itype}:raises", f"{cls.__name__}.{tag}: float64 input "
+                             f"{ef or 'returns'}, the same values as {itype} {ei or 'returns'}", rep)
+                    continue
+                if not (wf.shape == wi.shape and close(wi.data, wf.data, 1e-9)):
+                    fail(f"dtype:{cls.__name__}.{tag}:{itype}:mismatch", f"{cls.__name__}.{tag} on {itype} input differs from "
+                         f"the same values given as float64", rep)
+                # whole array vs element by element, on the keyword paths too
+                ok = wf.shape == shape
+                if ok:
+                    for i in np.ndindex(*shape):
+                        one = getattr(cls, name)(d[i].astype(np.float64)[None], **kw)
+                        if not close(one.data.reshape(-1), wf.data[i].reshape(-1), 1e-12):
+                            ok = False
+                if not ok:
+                    fail(f"elementwise:{cls.__name__}.{tag}", f"{cls.__name__}.{tag} of an array of shape {shape} differs "
+                         f"from element-by-element evaluation", rep)
+            # axis-angle pairs and Rodrigues-Frank vectors take two arrays
+            ax, an = int_rows(n, 3, -3, 3).reshape(shape + (3,)), np.array([R.randint(-3, 3) for _ in range(n)]).reshape(shape)
+            and_ = np.array([R.randint(-180, 180) for _ in range(n)]).reshape(shape)
+            two = [("from_axes_angles", {}, ax, an), ("from_axes_angles", {"degrees": True}, ax, and_),
+                   ("from_rodrigues[angles]", {}, ax, np.abs(an))]
+            for name, kw, d1, d2 in two:
+                tag = name + "".join(f"[{a}={b}]" for a, b in kw.items())
+                fn = getattr(cls, name.split("[")[0])
+                st(f"from-int/{tag}/{itype}")
+                rep = {"cls": cls.__name__, "constructor": tag, "first": d1.tolist(), "second": d2.tolist(), "dtype": itype}
+                if name.startswith("from_rodrigues"):
+                    # `angles` must be an array there (list input is not part of its contract)
+                    conv2 = (lambda x: x.astype(np.int64)) if itype == "list" else (lambda x: x.astype(itype))
+                else:
+                    conv2 = as_int
+                (wf, ef), (wi, ei) = (outcome(lambda: fn(d1.astype(np.float64), d2.astype(np.float64), **kw)),
+                                      outcome(lambda: fn(as_int(d1), conv2(d2), **kw)))
+                if ef or ei:
+                    if ef != ei:
+                        fail(f"dtype:{cls.__name__}.{tag}:{itype}:raises", f"{cls.__name__}.{tag}: float64 input "
+                             f"{ef or 'returns'}, the same values as {itype} {ei or 'returns'}", rep)
+                    continue
+                if not (wf.shape == wi.shape and close(wi.data, wf.data, 1e-9)):
+                    fail(f"dtype:{cls.__name__}.{tag}:{itype}:mismatch", f"{cls.__name__}.{tag} on {itype} input differs from "
+                         f"the same values given as float64", rep)
+        # keyword paths of the conversions TO other representations, on a quaternion built from integers
+        qi = grid_data(shape, 4, "int")
+        for name, f in (("to_euler[degrees=True]", lambda q: q.to_euler(degrees=True)),
+                        ("to_rodrigues[frank=True]", lambda q: q.to_rodrigues(frank=True)),
+                        ("to_axes_angles", lambda q: np.concatenate([q.to_axes_angles().axis.data, q.to_axes_angles().angle[..., None]], -1))):
+            st(f"from-int/{name}/{itype}")
+            for backend in (True, False):
+                set_backend(backend)
+                (wf, ef), (wi, ei) = outcome(lambda: arr(f(Quaternion(qi.astype(np.float64))))), outcome(lambda: arr(f(Quaternion(as_int(qi)))))
+                if not (ef or ei) and wf.shape == wi.shape and "rodrigues" in name:
+                    # a half turn has an infinite Rodrigues-Frank length: the same entries must be infinite
+                    inf_same = np.array_equal(np.isfinite(wf), np.isfinite(wi)) and np.array_equal(wf[~np.isfinite(wf)], wi[~np.isfinite(wi)])
+                    wf, wi = np.where(np.isfinite(wf), wf, 0.0), np.where(np.isfinite(wi), wi, 0.0 if inf_same else 1.0)
+                bad = (ef != ei) if (ef or ei) else not (wf.shape == wi.shape and close(
+                    np.concatenate([np.cos(np.deg2rad(wi)), np.sin(np.deg2rad(wi))], -1) if "euler" in name else wi,
+                    np.concatenate([np.cos(np.deg2rad(wf)), np.sin(np.deg2rad(wf))], -1) if "euler" in name else wf, 1e-9))
+                if bad:
+                    fail(f"dtype:Quaternion.{name}:{itype}:{'npq' if backend else 'builtin'}:{'raises' if (ef or ei) else 'mismatch'}",
+                         f"Quaternion.{name} on {itype} data differs from the same values given as float64: "
+                         f"{ei or ''} / {ef or ''}", {"q": qi.tolist(), "dtype": itype})
+        set_backend(True)
 
 emit({"cases": cases, "fails": fails, "strata": strata})
